@@ -80,10 +80,11 @@ fn main() {
                     // two-ply probes around one intended first step (a push start or a step that may lead a
                     // pull): parse, play that step if the engine offers it, observe the follow-up state and
                     // every child of it
-                    let kind = round % 2;
-                    if let Some((c, gold, sq, d)) = focus_position(&mut rng, kind) {
+                    let kind = round % 3;
+                    let pos = if kind == 2 { wrap_position(&mut rng) } else { focus_position(&mut rng, kind) };
+                    if let Some((c, gold, sq, d)) = pos {
                         let mn = 2 + rng.below(40);
-                        if g.reset_parsed(&c, gold, mn, if kind == 0 { "focus-push" } else { "focus-pull" }) {
+                        if g.reset_parsed(&c, gold, mn, if kind == 0 { "focus-push" } else if kind == 1 { "focus-pull" } else { "focus-wrap" }) {
                             let a = Action::Move(Square::from_index(sq as u8), d);
                             let offered = guarded(|| g.top().valid_actions().contains(&a)).unwrap_or(false);
                             if offered && g.step(&a) {
